@@ -703,8 +703,16 @@ def r19e(P, R):
     # get_required_files resolves imports relative to the importing file (same rule as the import resolver)
     g0 = ld.logic("get_required_files")
     g = inlined(P, g0)
+
+    def resolutions(h):
+        return [c for c in h.walk() if c.get("k") == "Call" and (call_name(c) or "").endswith("resolve_relative_path")]
+    if not resolutions(g):
+        # the computation may be handed over as a function value (`.map(Task::unresolved_imports)`): analyse that function
+        alt = [h for h in scope_fns(P, g0) if h.path != g0.path and resolutions(h)]
+        if len(alt) == 1:
+            g = inlined(P, alt[0])
     pv = Prov(g)
-    rr = [c for c in g.walk() if c.get("k") == "Call" and (call_name(c) or "").endswith("resolve_relative_path")]
+    rr = resolutions(g)
     R.floor("R19-e", "path resolutions in get_required_files", len(rr), 1)
     for c in rr:
         a0 = pv.atoms(c["args"][0])
